@@ -1550,8 +1550,22 @@ def merge_typesystems(*typesystems: TypeSystem) -> TypeSystem:
                 if t.supertype.name != existing_type.supertype.name:
                     if merged_ts.subsumes(existing_type.supertype.name, t.supertype.name):
                         # Existing supertype subsumes newly specified supertype;
-                        # reset supertype to the new, more specific type
-                        existing_type.supertype = t.supertype
+                        # reset supertype to the new, more specific type: move the type to the children of its
+                        # new supertype and let it (and its subtypes) inherit the additional features
+                        new_supertype = merged_ts.get_type(t.supertype.name)
+                        old_supertype = merged_ts.get_type(existing_type.supertype.name)
+                        old_supertype._children.pop(existing_type.name, None)
+                        existing_type.supertype = new_supertype
+                        new_supertype._children[existing_type.name] = existing_type
+                        for feature in new_supertype.all_features:
+                            for descendant in existing_type.descendants:
+                                redefined_feature = descendant._features.get(feature.name)
+                                if redefined_feature is not None and redefined_feature != feature:
+                                    msg = "Cannot merge type [{}] below [{}]: feature [{}] is defined differently".format(
+                                        descendant.name, new_supertype.name, feature.name
+                                    )
+                                    raise ValueError(msg)
+                            existing_type._add_feature(feature, inherited=True, warn=False)
                     elif merged_ts.subsumes(t.supertype.name, existing_type.supertype.name):
                         # Newly specified supertype subsumes old type, this is OK and we don't
                         # need to do anything
